@@ -69,8 +69,8 @@ MODULES = {
                                              "fixed": {"return_dists": False, "bipartite": False}},
             "smooth_knn_dist": {"args": {"distances": M, "k": F, "n_iter": I, "local_connectivity": F, "bandwidth": F}},
         },
-        "files": ["L_knn.v"],
-        "deps": ["model/M_smooth.v", "model/M_metrics.v"],
+        "files": ["L_knn.v", "K_knn.v"],
+        "deps": ["model/M_smooth.v", "model/M_metrics.v", "thm/T_smooth.v", "thm/T_smooth_conv.v", "prop/P_C01.v"],
     },
 }
 
